@@ -5,9 +5,15 @@ use crate::types::Ph;
 use rand_core::{CryptoRng, RngCore};
 
 /// fails on its `fail_at`-th request (0-based) after writing `partial` bytes; infallible methods panic
+/// `code`: index into CODES (error value reported); `fail_n`: number of consecutive failing requests starting at `fail_at`
 struct FaultRng { req: usize, fail_at: usize, partial: usize }
+static CODE: core::sync::atomic::AtomicU32 = core::sync::atomic::AtomicU32::new(0);
+static FAIL_N: core::sync::atomic::AtomicUsize = core::sync::atomic::AtomicUsize::new(1);
 impl FaultRng {
-    fn err() -> rand_core::Error { rand_core::Error::from(core::num::NonZeroU32::new(rand_core::Error::CUSTOM_START).unwrap()) }
+    fn err() -> rand_core::Error {
+        let c = CODE.load(core::sync::atomic::Ordering::Relaxed);
+        rand_core::Error::from(core::num::NonZeroU32::new(if c == 0 { rand_core::Error::CUSTOM_START } else { c }).unwrap())
+    }
 }
 impl RngCore for FaultRng {
     fn next_u32(&mut self) -> u32 { panic!("infallible RNG method used") }
@@ -15,7 +21,7 @@ impl RngCore for FaultRng {
     fn fill_bytes(&mut self, _d: &mut [u8]) { panic!("infallible RNG method used") }
     fn try_fill_bytes(&mut self, d: &mut [u8]) -> Result<(), rand_core::Error> {
         let me = self.req; self.req += 1;
-        if me == self.fail_at {
+        if me >= self.fail_at && me < self.fail_at + FAIL_N.load(core::sync::atomic::Ordering::Relaxed) {
             let n = core::cmp::min(self.partial, d.len());
             for b in d[..n].iter_mut() { *b = 0xA5; }
             return Err(Self::err());
@@ -56,10 +62,25 @@ macro_rules! rng_case {
 #[test]
 fn c12_rng_faults() {
     let mut bad = 0;
-    for &p in PARTIALS {
-        rng_case!(ml_dsa_44, p, bad);
-        rng_case!(ml_dsa_65, p, bad);
-        rng_case!(ml_dsa_87, p, bad);
+    // error values: rand_core's custom / internal ranges and every OS errno (a handler may special-case one, e.g. EINTR / EAGAIN);
+    // fault windows: the request fails once, or keeps failing on retries
+    let mut codes: std::vec::Vec<u32> = std::vec![0, rand_core::Error::INTERNAL_START, u32::MAX];
+    codes.extend(1u32..=140);
+    for &fail_n in &[1usize, 2, 3, 4, 100] {
+        FAIL_N.store(fail_n, core::sync::atomic::Ordering::Relaxed);
+        for &c in &codes {
+            if fail_n > 1 && c > 140 { continue; }
+            CODE.store(c, core::sync::atomic::Ordering::Relaxed);
+            let before = bad;
+            for &p in PARTIALS {
+                if (c != 0 || fail_n != 1) && p != PARTIALS[0] && p != PARTIALS[PARTIALS.len() - 1] { continue; }
+                rng_case!(ml_dsa_44, p, bad);
+                if c == 0 && fail_n == 1 { rng_case!(ml_dsa_65, p, bad); rng_case!(ml_dsa_87, p, bad); }
+            }
+            if bad != before { std::println!("   (error code {:#x}, {} consecutive failing request(s))", c, fail_n); }
+            if bad > 12 { break; }
+        }
     }
+    CODE.store(0, core::sync::atomic::Ordering::Relaxed); FAIL_N.store(1, core::sync::atomic::Ordering::Relaxed);
     assert!(bad == 0, "VERIF-PROPERTY-VIOLATED C12: {} RNG fault case(s) behave wrongly", bad);
 }
